@@ -104,6 +104,122 @@ def executor_wiring(chk, rid, drv):
     chk.ob(rid, "executor keeps the id it was given", len(st) == 1 and st[0].targets[0].attr == ep[0], st[0] if st else einit, "", key="esrally/driver/driver.py:AsyncExecutor.__init__:client-id")
 
 
+def _attr_from_param(init):
+    """`self.<attr> = <param>` stores of a constructor: attr -> parameter name."""
+    ps = set(params_of(init)) if init is not None else set()
+    out = {}
+    for n in (walk_body(init) if init is not None else []):
+        if isinstance(n, ast.Assign) and len(n.targets) == 1 and is_self_attr(n.targets[0]) and isinstance(n.value, ast.Name) and n.value.id in ps:
+            out[n.targets[0].attr] = n.value.id
+    return out
+
+
+def request_events(repo, drv):
+    """Executor attributes that hold one of the worker's REQUEST events: a threading.Event the Worker creates for itself, sets in its own message handlers (a request that reaches the
+    worker from outside: cancel, complete) and hands down Worker -> AsyncIoAdapter -> AsyncExecutor. Roles by data flow: constructor argument -> `self.<attr> = <param>`, hop by hop,
+    at every construction site. Returns {executor attribute: (worker attribute, names of the Worker methods that set it)}; an attribute whose chain cannot be followed is not listed."""
+    EX, AD, WK = drv.cls("AsyncExecutor"), drv.cls("AsyncIoAdapter"), drv.cls("Worker")
+    einit, ainit, wm = drv.methods(EX).get("__init__"), drv.methods(AD).get("__init__"), drv.methods(WK)
+    if einit is None or ainit is None or wm.get("__init__") is None:
+        raise AnchorMissing("constructors of AsyncExecutor / AsyncIoAdapter / Worker")
+    w_events = {}
+    for n in walk_body(wm["__init__"]):
+        if isinstance(n, ast.Assign) and len(n.targets) == 1 and is_self_attr(n.targets[0]) and isinstance(n.value, ast.Call) and last_attr(n.value.func) == "Event":
+            setters = sorted(m.name for m in wm.values() for c in walk_body(m) if isinstance(c, ast.Call) and isinstance(c.func, ast.Attribute) and c.func.attr == "set"
+                             and is_self_attr(c.func.value, n.targets[0].attr))
+            if setters:
+                w_events[n.targets[0].attr] = setters
+
+    def hop(ctor_name, init, owner):
+        """callee parameter -> the attribute of `owner` passed for it at every construction site (None when sites disagree or pass something else)"""
+        sites = [c for c in package_calls(repo, ctor_name) if isinstance(c.func, (ast.Name, ast.Attribute))]
+        out = {}
+        for p in params_of(init):
+            vals = set()
+            for c in sites:
+                a = source.bind_args(c, init).get(p)
+                cls = source.enclosing_class(c)
+                vals.add(a.attr if a is not None and is_self_attr(a) and cls is owner else None)
+            if len(vals) == 1 and None not in vals:
+                out[p] = vals.pop()
+        return out
+
+    ex_from_ad = hop("AsyncExecutor", einit, AD)
+    ad_from_wk = hop("AsyncIoAdapter", ainit, WK)
+    ad_attr = _attr_from_param(ainit)
+    out = {}
+    for a, p in _attr_from_param(einit).items():
+        x = ex_from_ad.get(p)
+        q = ad_attr.get(x) if x else None
+        y = ad_from_wk.get(q) if q else None
+        if y in w_events:
+            out[a] = (y, w_events[y])
+    return out
+
+
+def completing_client_signal_rule(chk, rid, repo, drv):
+    """F44. The task named by completed-by is done when ALL its clients are done (Driver.may_complete_current_task waits for every one of them), but the complete event is worker-wide:
+    every other executor of the worker polls it and Worker.drive skips all rows up to the join point once it is set. Decided on values for the scenario
+        the worker hosts clients 0 and 1 of the named task (2 clients); no cancel / complete request has reached the worker; client 0 finishes first:
+    the conditions that control each `.set()` of that event in the executor are EXTRACTED and evaluated for client 0. If they all hold and read nothing but the task's static
+    configuration, the client id and the request events, the decision is the same for the first client to finish as for the last: the first one ends the sibling tasks and the
+    remaining clients / later rows of the named task itself. A condition that reads anything else (a count of outstanding clients shared by the executors, a per-worker tracker, ...)
+    makes the decision depend on the other clients' progress and satisfies this necessary condition."""
+    from sa.minieval import CannotEval, Record, ev as _ev
+    EX = drv.cls("AsyncExecutor")
+    ex_call = drv.methods(EX).get("__call__")
+    if ex_call is None:
+        raise AnchorMissing("AsyncExecutor.__call__")
+    edefs = local_defs(ex_call)
+    revs = request_events(repo, drv)
+    # the completion event: the request event that the worker's CompleteCurrentTask handler sets
+    done_attrs = [a for a, (_, setters) in revs.items() if "receiveMsg_CompleteCurrentTask" in setters]
+    if len(done_attrs) != 1:
+        raise AnchorMissing("executor attribute holding the worker's completion event (threading.Event set by Worker.receiveMsg_CompleteCurrentTask and passed Worker -> AsyncIoAdapter -> AsyncExecutor)")
+    done = done_attrs[0]
+    sets = [n for n in walk_body(ex_call) if isinstance(n, ast.Call) and isinstance(n.func, ast.Attribute) and n.func.attr == "set" and is_self_attr(n.func.value, done)]
+
+    class _Quiet(ast.NodeTransformer):
+        """no request has reached the worker: every request event polls as not set"""
+
+        def visit_Call(self, n):
+            self.generic_visit(n)
+            if isinstance(n.func, ast.Attribute) and n.func.attr == "is_set" and not n.args and not n.keywords and is_self_attr(n.func.value) and n.func.value.attr in revs:
+                return ast.copy_location(ast.Constant(value=False), n)
+            return n
+
+    env = {"self": Record(client_id=0, task=Record(completes_parent=True, any_completes_parent=False, clients=2))}
+    fired = 0
+    for s in sets:
+        holds, open_ = [], []
+        reached = True
+        for t, pol in guards(s, path_sensitive=True):
+            txt = u(source.inline_node(t, edefs))  # the condition as written, single-assignment locals resolved to what they were assigned from
+            e = ast.fix_missing_locations(_Quiet().visit(source.inline_node(t, edefs)))
+            try:
+                v = bool(_ev(e, dict(env)))
+            except CannotEval:
+                open_.append(txt)
+                continue
+            if v != pol:
+                reached = False
+                break
+            holds.append(txt if pol else f"not ({txt})")
+        if not reached:
+            continue  # e.g. the signal of a `completed-by: any` task: not executed by a client of a NAMED task
+        fired += 1
+        ok = bool(open_)
+        chk.ob(rid, "executor: a client of the task named by completed-by that finishes before another client of that task does not set the worker-wide complete event on its own account",
+               ok, s, (f"`{u(s)}` additionally depends on {open_}" if ok else
+                       f"`{u(s)}` is executed by client 0 while client 1 of the task still runs: controlled only by {holds or ['nothing']}, which holds for the first client to finish "
+                       "as for the last. The sibling tasks of this worker are cut and its remaining clients / later rows of the named task are skipped although the task is done only "
+                       "when ALL its clients are (the coordinator waits for all of them)"),
+               key=f"{_D}:AsyncExecutor.__call__:completing-client-sets-shared-event" + ("" if fired == 1 else f":{fired}"))
+    if fired == 0:
+        chk.ob(rid, "executor: a client of the task named by completed-by that finishes before another client of that task does not set the worker-wide complete event on its own account",
+               True, ex_call, f"none of the {len(sets)} set site(s) of self.{done} is executed in this scenario", key=f"{_D}:AsyncExecutor.__call__:completing-client-sets-shared-event")
+
+
 def run(chk):
     repo = chk.repo
     drv = repo.module(_D)
@@ -113,7 +229,8 @@ def run(chk):
         "Decides the barrier/wake-up protocol skeleton: join points bracket every schedule element on all rows; Drive is constructed only behind the "
         "all-workers barrier and not-finished test; broadcasts iterate the full worker list; BenchmarkComplete exactly once behind barrier and finished; "
         "CompleteCurrentTask guarded by a per-step flag; the worker waits for its executor, ships samples and clears both events before JoinPointReached; "
-        "the complete event is set only with cause; every normal exit of the wake-up chain has scheduled a successor (no dead end)."
+        "the complete event is set only with cause; every normal exit of the wake-up chain has scheduled a successor (no dead end); "
+        "the first of several co-located clients of the task named by completed-by must not set the worker-wide complete event on static conditions alone (O1.11, decided on values)."
     )
     chk.not_decided = ("races between the executor thread and the actor thread, FIFO/fairness assumptions, 'every client runs its task exactly once' as a count, "
                        "virtual time; the set of interleavings is not enumerated.")
@@ -822,6 +939,14 @@ def run(chk):
     ok = len(ga) == 1 and awl is not None and [u(x) for x in ga[0].args] == [f"*{awl}"] and isinstance(source.parent(ga[0]), ast.Await)
     chk.ob("O1.10", "all executors of the row are awaited together", ok, ga[0] if ga else arun, "")
 
+    # ---- O1.11 the named task is done when ALL its clients are done (F44) ---------------------------------------------------------------------------
+    chk.rule("O1.11", "a client of the task named by completed-by sets the worker-wide complete event only under a condition that depends on the progress of the task's other clients: "
+             "evaluated for the first of two co-located clients of the named task to finish, the conditions controlling the set must not all hold on static task configuration, "
+             "client id and request events alone", 1,
+             "parallel element with completed-by: <task>, the named task has >= 2 clients, one of them shares a worker with a client of a sibling task (or with another client / a later "
+             "row of the named task): the sibling is cut, the later client is never started, as soon as the first co-located client of the named task is done")
+    completing_client_signal_rule(chk, "O1.11", repo, drv)
+
     # ---- O1.8 advisory: executor honours the flags ---------------------------------------------------------------------------------------------
     loops = [n for n in walk_body(ex_call) if isinstance(n, ast.AsyncFor)]
     if loops:
@@ -882,6 +1007,9 @@ VARIANTS = [
     V("executor only for the first allocation", "break", _D, "            awaitables.append(final_executor())", "            if not awaitables:\n                awaitables.append(final_executor())", "O1.10"),
     V("executor gets the wrong client id", "break", _D, "            async_executor = AsyncExecutor(\n                client_id, task,", "            async_executor = AsyncExecutor(\n                self.parent_worker_id, task,", "O1.10"),
     # preserving
+    # F44 is a KNOWN finding (O1.11 falsified on the unchanged tree, listed by construct key): a respelling of the defective signal must keep the SAME key (stays listed, nothing new reported)
+    V("F44 (known) respelled: event polled before it is set", "keep", _D, "                    self.task,\n                    self.client_id,\n                )\n                self.complete.set()\n            elif any_task_completes_parent:",
+      "                    self.task,\n                    self.client_id,\n                )\n                if not self.complete.is_set():\n                    self.complete.set()\n            elif any_task_completes_parent:"),
     V("barrier with >=", "keep", _D, "        if self.currently_completed == len(self.workers):", "        if self.currently_completed >= len(self.workers):"),
     V("barrier operands swapped", "keep", _D, "        if self.currently_completed == len(self.workers):", "        if len(self.workers) == self.currently_completed:"),
     V("logging moved", "keep", _D, "            self.currently_completed = 0\n            self.complete_current_task_sent = False", "            self.complete_current_task_sent = False\n            self.currently_completed = 0"),
